@@ -44,7 +44,11 @@ Plain == {
     <<"img", <<Img("pic.png", <<W("alt")>>)>>>>,
     <<"emlink", <<Em(<<Link("note6", <<W("inem")>>, "inline")>>)>>>>,
     <<"html", <<W("a"), SP, Html("<b>"), W("bold"), Html("</b>"), SP, W("z")>>>>,
-    <<"mid", <<W("pre"), SP, Link("note7", <<W("mid")>>, "inline"), SP, W("post")>>>>
+    <<"mid", <<W("pre"), SP, Link("note7", <<W("mid")>>, "inline"), SP, W("post")>>>>,
+    <<"anchor", <<Link("note8#section", <<W("anch")>>, "inline")>>>>,
+    <<"anchormid", <<W("see"), SP, Link("dir/note9#part", <<W("there")>>, "inline")>>>>,
+    <<"anchorown", <<W("see"), SP, Link("#local", <<W("below")>>, "inline")>>>>,
+    <<"query", <<W("see"), SP, Link("note10?x=1", <<W("q")>>, "inline")>>>>
 }
 
 Breaks == {
